@@ -102,6 +102,62 @@ theorem order_respects (ps : List Plugin) (hnd : (ps.map (·.name)).Nodup) (laye
     apply List.mem_append_right
     exact List.mem_map.mpr ⟨p, List.mem_filter.mpr ⟨hp, by simpa using hb⟩, rfl⟩
 
+/-- **completeness of the ordering**: an acyclic table is always ordered - `toposort` (and hence
+`load_section_plugins`) raises its circular-dependency error only when there is a cycle. Acyclic:
+some rank strictly decreases along every dependency on another key -/
+theorem toposort_complete (d : Deps) (rank : String → Nat)
+    (hacyc : ∀ kd ∈ d, ∀ y ∈ kd.2, y ≠ kd.1 → rank y < rank kd.1) : (toposort d).isSome = true := by
+  unfold toposort
+  apply peel_complete rank _ _ (Nat.le_succ _)
+  · -- ranked
+    intro kd hkd y hy
+    unfold normalise at hkd
+    rcases List.mem_append.mp hkd with h | h
+    · obtain ⟨kd0, hkd0, rfl⟩ := List.mem_map.mp h
+      have hy' := List.mem_filter.mp hy
+      exact hacyc kd0 hkd0 y hy'.1 (by simpa using hy'.2)
+    · obtain ⟨k, _, rfl⟩ := List.mem_map.mp h
+      simp at hy
+  · -- closed
+    intro kd hkd y hy
+    rw [keys_normalise_eq]
+    unfold normalise at hkd
+    rcases List.mem_append.mp hkd with h | h
+    · by_cases hk : y ∈ keys d
+      · exact List.mem_append_left _ hk
+      · apply List.mem_append_right
+        unfold extras
+        apply List.mem_filter.mpr
+        constructor
+        · rw [mem_dedupS]
+          exact List.mem_flatMap.mpr ⟨kd, h, hy⟩
+        · simpa [keys, Function.comp_def] using hk
+    · obtain ⟨k, _, rfl⟩ := List.mem_map.mp h
+      simp at hy
+
+/-- for section plugins: if the before/after constraints between installed plugins are acyclic
+(a rank exists that every constraint respects), the plugins are ordered - no spurious failure -/
+theorem order_exists (ps : List Plugin) (rank : String → Nat)
+    (hafter : ∀ p ∈ ps, ∀ a ∈ p.after, a ∈ ps.map (·.name) → a ≠ p.name → rank a < rank p.name)
+    (hbefore : ∀ p ∈ ps, ∀ q ∈ ps, p.name ∈ q.before → q.name ≠ p.name → rank q.name < rank p.name) :
+    (pluginLayers ps).isSome = true := by
+  unfold pluginLayers
+  have := toposort_complete (dependencies ps) rank ?_
+  · cases h : toposort (dependencies ps) with
+    | some ls => simp
+    | none => rw [h] at this; simp at this
+  · intro kd hkd y hy hne
+    unfold dependencies at hkd
+    obtain ⟨p, hp, rfl⟩ := List.mem_map.mp hkd
+    simp only at hy hne ⊢
+    rw [mem_dedupS] at hy
+    rcases List.mem_append.mp hy with h | h
+    · have h' := List.mem_filter.mp h
+      exact hafter p hp y h'.1 (by simpa using h'.2) hne
+    · obtain ⟨q, hq, rfl⟩ := List.mem_map.mp h
+      have hq' := List.mem_filter.mp hq
+      exact hbefore p hp q hq'.1 (by simpa using hq'.2) hne
+
 /-- constraints naming plugins that are not installed never enter the table -/
 theorem absent_ignored (ps : List Plugin) (x : String) (dx : List String)
     (h : (x, dx) ∈ dependencies ps) : ∀ y ∈ dx, y ∈ ps.map (·.name) := by
@@ -231,5 +287,10 @@ def exPs : List Plugin :=
 
 example : toposort (dependencies exPs) = some [["a"], ["c", "b"]] := by decide
 example : (exPs.map (·.name)).Nodup := by decide
+-- the premises of `order_exists` hold for these plugins with the rank a < b, c
+def exRank (n : String) : Nat := if n = "a" then 0 else 1
+example : (∀ p ∈ exPs, ∀ a ∈ p.after, a ∈ exPs.map (·.name) → a ≠ p.name → exRank a < exRank p.name) ∧
+    (∀ p ∈ exPs, ∀ q ∈ exPs, p.name ∈ q.before → q.name ≠ p.name → exRank q.name < exRank p.name) := by
+  decide
 
 end Cobald.Props.C14
